@@ -14,9 +14,9 @@ VARIANTS = {
     "plain":   ("gcc",   "-g", "-O2 -g", "", ""),
     "asan":    ("gcc",   ASAN_FLAGS, "-O1 " + ASAN_FLAGS, ASAN_FLAGS, ""),
     "asan-if": ("gcc",   ASAN_FLAGS + " -finstrument-functions", "-O1 " + ASAN_FLAGS, ASAN_FLAGS, "-DGMSIM_HOOKED"),
-    "tsan-if": ("clang", "-fsanitize=thread -finstrument-functions -g", "-O1 -g", "-fsanitize=thread", "-DGMSIM_HOOKED -DGMSIM_TSAN"),
+    "tsan-if": ("clang", "-fsanitize=thread -finstrument-functions -g", "-O1 -g", "-fsanitize=thread", "-DGMSIM_HOOKED -DGMSIM_TSAN -DGMSIM_THREADS"),
     "msan":    ("clang", "-fsanitize=memory -fsanitize-memory-track-origins -fno-omit-frame-pointer -g",
-                "-O1 -g -fsanitize=memory -fsanitize-memory-track-origins -fno-omit-frame-pointer", "-fsanitize=memory", "-DGMSIM_MSAN"),
+                "-O1 -g -fsanitize=memory -fsanitize-memory-track-origins -fno-omit-frame-pointer", "-fsanitize=memory", "-DGMSIM_MSAN -DGMSIM_THREADS"),
 }
 WRAPS = ["send", "recv", "usleep", "time", "getentropy", "close"]
 
